@@ -55,6 +55,16 @@ for prop, patch in jobs:
     viol = re.findall(r"^VIOLATION.*$", r.stdout, re.M)
     classes = re.findall(r"^  class (\S+)", r.stderr, re.M)
     verdict = "CAUGHT" if r.returncode == 1 and viol else ("MISSED" if r.returncode == 0 else "CHECK-BROKEN(%d)" % r.returncode)
+    other = []
+    if verdict == "MISSED" and name.startswith("seeded/"):
+        # a change written against one property may show at the level another property's check works on
+        for q in json.load(open(os.path.join(os.path.dirname(patch), "meta.json"))).get("also_run", []):
+            r2 = subprocess.run([os.path.join(VERIF, "check"), q] + (["--cases", cases] if cases else []), stdout=subprocess.PIPE, stderr=subprocess.PIPE, text=True, env=env)
+            if r2.returncode == 1 and re.search(r"^VIOLATION", r2.stdout, re.M):
+                other.append(q)
+                classes += ["%s:%s" % (q, k) for k in re.findall(r"^  class (\S+)", r2.stderr, re.M)]
+        if other:
+            verdict = "CAUGHT-BY-" + "+".join(other)
     results.append((prop, name, verdict, base + " " + ",".join(classes)))
     print("%-4s %-60s %-12s %s" % results[-1], flush=True)
     head = subprocess.run(["git", "-C", "/repo", "rev-parse", "--short", "HEAD"], stdout=subprocess.PIPE, text=True).stdout.strip()
@@ -63,6 +73,8 @@ for prop, patch in jobs:
         meta = json.load(open(mp))
         note = (meta.get("check_result") or {}).get("note")
         meta["check_result"] = {"verdict": verdict, "caught_by": classes, "cmd": "./check %s --tier quick (VERIF_REPO=scratch worktree of /repo %s + patch.diff)" % (prop, head)}
+        if "also_run" in meta and verdict.startswith("CAUGHT-BY"):
+            meta["check_result"]["cmd"] += "; the check of %s itself stayed silent, the checks of %s (meta.also_run) reported it" % (prop, "+".join(other))
         if note and verdict == "MISSED":  # an analysed non-detection keeps its explanation
             meta["check_result"]["verdict"] = "MISSED-EXPLAINED"
             meta["check_result"]["note"] = note
@@ -74,6 +86,6 @@ for prop, patch in jobs:
         json.dump(res, open(rp, "w"), indent=1, sort_keys=True)
 subprocess.run(["git", "-C", "/repo", "worktree", "remove", "--force", scratch], stdout=subprocess.DEVNULL, stderr=subprocess.DEVNULL)
 shutil.rmtree(scratch, ignore_errors=True)
-bad = [r for r in results if r[2] != "CAUGHT"]
+bad = [r for r in results if not r[2].startswith("CAUGHT")]
 print("%d mutants, %d caught, %d not caught" % (len(results), len(results) - len(bad), len(bad)))
 sys.exit(1 if bad else 0)
